@@ -15,7 +15,7 @@
    (theorems.json). *)
 From Coq Require Import SpecFloat.
 Require Import Base Value Float PrintOptions ParseOptions Utf8 Reader Scan Num NumberOps Parser.
-Require Import RelFramework PositionProofs SpanProofs CrossProofs SourcesAgree QuoteSpan.
+Require Import RelFramework PositionProofs SpanProofs CrossProofs SourcesAgree QuoteSpan ValidTextProofs.
 
 Theorem C11_spans_in_bounds_partial : forall ro alpha fast std_parse k inp d,
   datum_from_trait ro alpha fast std_parse k inp = POk d ->
@@ -137,6 +137,12 @@ Theorem C11_same_across_str_and_slice : forall ro alpha fast std_parse (inp : li
   datum_from_trait ro alpha fast std_parse SrcStr inp = datum_from_trait ro alpha fast std_parse SrcSlice inp.
 Proof. exact str_slice_agree_datum. Qed.
 Print Assumptions C11_same_across_str_and_slice.
+
+(* on a well-formed text - every str - without exception *)
+Theorem C11_same_across_str_and_slice_on_text : forall W, utf8_valid W = true -> forall ro alpha fast std_parse,
+  datum_from_trait ro alpha fast std_parse SrcStr (bytes_events W) = datum_from_trait ro alpha fast std_parse SrcSlice (bytes_events W).
+Proof. intros W HW ro alpha fast std_parse. exact (proj2 (valid_text_agree W HW ro alpha fast std_parse)). Qed.
+Print Assumptions C11_same_across_str_and_slice_on_text.
 
 (* For a quote shorthand the head's span covers just the shorthand characters:
    whenever the datum parser finds, after trivia, one of ' ` , on the input and
